@@ -22,11 +22,15 @@ package main
 import (
 	"bufio"
 	"fmt"
+	"go/ast"
+	"go/parser"
+	"go/token"
 	"go/types"
 	"math/big"
 	"os"
 	"path/filepath"
 	"regexp"
+	"sort"
 	"strconv"
 	"strings"
 )
@@ -110,6 +114,7 @@ type asmRun struct {
 	cell   func(base string, off int64) *Term
 	err    string
 	steps  int
+	trace  []string // executed instruction addresses and memory operand addresses (C17: must not depend on idx)
 }
 
 var maxU64Big = new(big.Int).Sub(new(big.Int).Lsh(big1, 64), big1)
@@ -181,6 +186,7 @@ func (r *asmRun) exec() {
 			return
 		}
 		in := r.fn.instrs[pc]
+		r.trace = append(r.trace, fmt.Sprintf("pc=%d %s", pc, in.op))
 		pc++
 		a := in.args
 		switch in.op {
@@ -292,6 +298,7 @@ func (r *asmRun) exec() {
 				}
 				r.loads[off] = true
 				r.loads[off+8] = true
+				r.trace = append(r.trace, fmt.Sprintf("load %s+%d", g.base, off))
 				r.xmm[a[1]] = asmXmm{r.cell(g.base, off), r.cell(g.base, off+8)}
 			} else if m := memOpRe.FindStringSubmatch(a[1]); m != nil { // store
 				g, ok := r.regs[m[2]]
@@ -305,6 +312,7 @@ func (r *asmRun) exec() {
 					off += d
 				}
 				x := r.xmm[a[0]]
+				r.trace = append(r.trace, fmt.Sprintf("store %s+%d", g.base, off))
 				r.stores[off] = x[0]
 				r.stores[off+8] = x[1]
 			} else {
@@ -438,6 +446,8 @@ func (e *Engine) asmObligations(repo string, lr *loadResult) ([]*Obligation, []s
 		add(rt.name+".layout", fmt.Sprintf("struct %s has size %#x and coordinates at offsets 0, 32, ... (the constants hard-coded in the assembly)", rt.elemType, rt.stride), layoutOK,
 			fmt.Sprintf("go/types: size %d, offsets %v", size, offs))
 		ncoordBytes := int64(32 * len(rt.coords))
+		var trace0 []string
+		traceOK, traceDetail, traceRuns := true, "", 0
 		for idx := uint64(0); idx <= 15; idx++ {
 			cell := func(base string, off int64) *Term {
 				ent, in := off/rt.stride, off%rt.stride
@@ -452,6 +462,21 @@ func (e *Engine) asmObligations(repo string, lr *loadResult) ([]*Obligation, []s
 			if run.err != "" {
 				errs = append(errs, "asm "+label+": "+run.err)
 				continue
+			}
+			traceRuns++
+			if idx == 0 {
+				trace0 = run.trace
+			} else if traceOK {
+				if len(run.trace) != len(trace0) {
+					traceOK, traceDetail = false, fmt.Sprintf("idx=%d executes %d trace events, idx=0 executes %d", idx, len(run.trace), len(trace0))
+				} else {
+					for i := range trace0 {
+						if trace0[i] != run.trace[i] {
+							traceOK, traceDetail = false, fmt.Sprintf("event %d: idx=0 `%s`, idx=%d `%s`", i, trace0[i], idx, run.trace[i])
+							break
+						}
+					}
+				}
 			}
 			okAll, detail := true, ""
 			for off := int64(0); off < ncoordBytes; off += 8 {
@@ -487,6 +512,149 @@ func (e *Engine) asmObligations(repo string, lr *loadResult) ([]*Obligation, []s
 			}
 			add(label+".frame", "stores only to the coordinate bytes of out, loads only from the 15 table entries", frameOK, fdetail)
 		}
+		// C17 for the assembly build: the sequence of executed instructions and of load / store addresses is the
+		// same for every index 0..15 (table contents are symbolic and never reach an address or a branch: the
+		// interpreter rejects symbolic addresses and symbolic comparison operands).
+		if traceRuns == 16 {
+			add(rt.name+".ct-trace", fmt.Sprintf("the executed instruction sequence and every load / store address are identical for idx = 0..15 (%d events); no address or branch depends on the table contents", len(trace0)), traceOK && len(trace0) > 0, traceDetail)
+			obls[len(obls)-1].Props = []string{"C17"}
+		}
 	}
 	return obls, errs
+}
+
+// buildConfigObligation (C19, C17): the two build configurations differ only in the two table lookups.  Every non-test
+// source file of the module whose inclusion depends on a build tag, GOOS or GOARCH (a //go:build line other than
+// `verif` / `ignore`, or a _GOOS / _GOARCH file name suffix) must be one of the three lookup files; the amd64 Go file may
+// only declare the two body-less lookups, the portable file may only define those two functions, the assembly file
+// only those two TEXT symbols; and no file consults runtime.GOARCH / runtime.GOOS or a CPU-feature package.
+func buildConfigObligation(repo string) *Obligation {
+	allowed := map[string]bool{"point_mul_table_amd64.go": true, "point_mul_table_amd64.s": true, "point_mul_table_ref.go": true}
+	lookups := map[string]bool{"lookupProjectivePoint": true, "lookupAffinePoint": true}
+	var bad []string
+	nfiles := 0
+	archs := map[string]bool{}
+	for _, a := range strings.Fields("386 amd64 arm arm64 loong64 mips mips64 mips64le mipsle ppc64 ppc64le riscv64 s390x wasm aix android darwin dragonfly freebsd illumos ios js linux netbsd openbsd plan9 solaris wasip1 windows") {
+		archs[a] = true
+	}
+	filepath.Walk(repo, func(path string, info os.FileInfo, err error) error {
+		if err != nil {
+			return nil
+		}
+		rel, _ := filepath.Rel(repo, path)
+		if info.IsDir() {
+			if strings.HasPrefix(info.Name(), ".") && rel != "." || rel == filepath.Join("internal", "asm") || info.Name() == "testdata" {
+				return filepath.SkipDir
+			}
+			return nil
+		}
+		name := info.Name()
+		isGo, isAsm := strings.HasSuffix(name, ".go"), strings.HasSuffix(name, ".s") || strings.HasSuffix(name, ".S")
+		if !isGo && !isAsm {
+			if strings.HasSuffix(name, ".c") || strings.HasSuffix(name, ".h") || strings.HasSuffix(name, ".syso") {
+				bad = append(bad, rel+": non-Go source file")
+			}
+			return nil
+		}
+		if strings.HasSuffix(name, "_test.go") {
+			return nil
+		}
+		nfiles++
+		data, err := os.ReadFile(path)
+		if err != nil {
+			bad = append(bad, rel+": "+err.Error())
+			return nil
+		}
+		constrained := ""
+		for _, line := range strings.Split(string(data), "\n") {
+			t := strings.TrimSpace(line)
+			if strings.HasPrefix(t, "//go:build ") {
+				expr := strings.TrimSpace(strings.TrimPrefix(t, "//go:build "))
+				if expr != "verif" && expr != "ignore" {
+					constrained = "//go:build " + expr
+				} else {
+					constrained = "-" // excluded from both builds (ignore) or comment-only hook (verif)
+				}
+			}
+			if strings.HasPrefix(t, "// +build ") {
+				constrained = t
+			}
+			if strings.HasPrefix(t, "package ") || strings.HasPrefix(t, "TEXT") {
+				break
+			}
+		}
+		if constrained == "-" {
+			return nil
+		}
+		base := strings.TrimSuffix(strings.TrimSuffix(name, ".go"), ".s")
+		parts := strings.Split(base, "_")
+		if n := len(parts); n >= 2 && archs[parts[n-1]] {
+			constrained += " file name suffix _" + parts[n-1]
+		}
+		if isAsm && constrained == "" {
+			constrained = "assembly file"
+		}
+		if constrained != "" && !(allowed[name] && filepath.Dir(rel) == ".") {
+			bad = append(bad, rel+": build-dependent ("+strings.TrimSpace(constrained)+")")
+		}
+		if isGo {
+			fset := token.NewFileSet()
+			f, err := parser.ParseFile(fset, path, data, 0)
+			if err != nil {
+				bad = append(bad, rel+": "+err.Error())
+				return nil
+			}
+			for _, im := range f.Imports {
+				p := strings.Trim(im.Path.Value, `"`)
+				if strings.HasSuffix(p, "/cpu") || p == "internal/cpu" {
+					bad = append(bad, rel+": imports "+p)
+				}
+			}
+			ast.Inspect(f, func(n ast.Node) bool {
+				if se, ok := n.(*ast.SelectorExpr); ok {
+					if id, ok := se.X.(*ast.Ident); ok && id.Name == "runtime" && (se.Sel.Name == "GOARCH" || se.Sel.Name == "GOOS") {
+						bad = append(bad, rel+": consults runtime."+se.Sel.Name)
+					}
+				}
+				return true
+			})
+			if allowed[name] && filepath.Dir(rel) == "." {
+				for _, d := range f.Decls {
+					switch d := d.(type) {
+					case *ast.FuncDecl:
+						if d.Recv != nil || !lookups[d.Name.Name] {
+							bad = append(bad, rel+": defines "+d.Name.Name+" (only the two lookups may be build-dependent)")
+						}
+						if name == "point_mul_table_amd64.go" && d.Body != nil {
+							bad = append(bad, rel+": "+d.Name.Name+" has a Go body in the assembly build")
+						}
+					case *ast.GenDecl:
+						if d.Tok != token.IMPORT {
+							bad = append(bad, rel+": declares "+d.Tok.String()+" (only the two lookups may be build-dependent)")
+						}
+					}
+				}
+			}
+		}
+		if isAsm && allowed[name] {
+			fns, err := parseAsmFile(path)
+			if err != nil {
+				bad = append(bad, rel+": "+err.Error())
+			}
+			for n := range fns {
+				if !lookups[n] {
+					bad = append(bad, rel+": defines TEXT "+n)
+				}
+			}
+		}
+		return nil
+	})
+	sort.Strings(bad)
+	st := "unsat"
+	if len(bad) > 0 || nfiles == 0 {
+		st = "sat"
+	}
+	return &Obligation{Name: "module#build-configurations", Kind: "ground", Func: "module", Goal: mkBool(st == "unsat"), Props: []string{"C19", "C17"},
+		Text:   fmt.Sprintf("the assembly and purego builds differ only in the bodies of lookupProjectivePoint / lookupAffinePoint (%d non-test source files scanned: build constraints, file name suffixes, runtime.GOARCH / GOOS, CPU-feature packages)", nfiles),
+		Result: &SolveResult{Status: st, Solver: "ground", Backend: "ground", Output: strings.Join(bad, "\n")}}
 }
